@@ -268,11 +268,35 @@ def check_aug(prog: Program, res: Result) -> None:
     res.floor("C04-geo", 4)
 
 
+def check_stable(prog: Program, res: Result) -> None:
+    """Registration has to hold on EVERY access of a sample: the per-access geometry (re-crop shift, augmentation)
+    must not update in place the keypoints / images stored in the in-memory cache, otherwise the second access of an
+    index shifts already shifted keypoints while the image is cropped afresh (alias engine E1, origin = self.cache)."""
+    from . import c11
+    R = "C04-stable"
+    al = c11.make_alias(prog)
+    for cname in c11.DATASETS:
+        gi = prog.cls(f"{c11.CD}:{cname}").methods.get("__getitem__")
+        if gi is None:
+            raise AnalysisError(f"{cname}.__getitem__ vanished")
+        res.touch(gi)
+        sm = al.summary(gi)
+        effs = [e for e in sm.effects if e.origin == ("cache",)]
+        for e in effs:
+            res.ob(R, False, gi.qualname, f"cache <- {e.stmt}",
+                   f"`{e.stmt}`{' (through ' + e.via + ')' if e.via else ''} transforms a cached coordinate/image tensor in place: on the next access of this "
+                   "index the transform is applied again to the already transformed keypoints, which are then off the (freshly cropped) image content",
+                   f"{gi.module.relpath}:{e.line}", derivation={"sink": e.stmt, "via": e.via, "kind": e.kind})
+        res.ob(R, not effs, gi.qualname, "per-access geometry works on fresh tensors", "see above", gi.where, sample={"sinks_checked": sm.store_sites})
+    res.floor(R, 4)
+
+
 def check(prog: Program, res: Result) -> None:
     check_pipelines(prog, res)
     check_contract_premises(prog, res)
     check_size(prog, res)
     check_aug(prog, res)
+    check_stable(prog, res)
     res.floor("C04-reg", 40)
     res.floor("C04-pad", 2)
     res.floor("C04-corner", 3)
@@ -286,6 +310,8 @@ RSF = "sleap_nn/data/resizing.py"
 ICF = "sleap_nn/data/instance_cropping.py"
 AUF = "sleap_nn/data/augmentation.py"
 VARIANTS = [
+    Variant("stable-inplace-shift", CDF, "        center_instance = sample[\"instance\"] - point\n        centered_centroid = sample[\"centroid\"] - point\n\n        sample[\"instance\"] = center_instance  # (n_samples=1, n_nodes, 2)\n        sample[\"centroid\"] = centered_centroid  # (n_samples=1, 2)",
+            "        sample[\"instance\"] -= point  # (n_samples=1, n_nodes, 2)\n        sample[\"centroid\"] -= point  # (n_samples=1, 2)", "C04-stable"),
     Variant("fill-forgets-eff", CDF, "            sample[\"instances\"] = sample[\"instances\"] * eff_scale\n\n            # resize image\n            sample[\"image\"], sample[\"instances\"] = apply_resizer(\n                sample[\"image\"],\n                sample[\"instances\"],\n                scale=self.scale,\n            )\n\n            # Pad the image (if needed) according max stride\n            sample[\"image\"] = apply_pad_to_stride(\n                sample[\"image\"], max_stride=self.max_stride\n            )\n\n            if self.np_chunks:\n                sample[\"image\"] = self.transform_to_pil(sample[\"image\"].squeeze(dim=0))\n                for k, v in sample.items():\n                    if k != \"image\" and isinstance(v, torch.Tensor):\n                        sample[k] = v.numpy()\n                f_name = f\"{self.np_chunks_path}/sample_{idx}.npz\"\n                np.savez_compressed(f_name, **sample)\n                self.cache[idx] = f_name\n\n            else:\n                self.cache[idx] = sample.copy()\n\n        for video in self.labels.videos:\n            video.close()\n\n    def _get_video_idx",
             "            # resize image\n            sample[\"image\"], sample[\"instances\"] = apply_resizer(\n                sample[\"image\"],\n                sample[\"instances\"],\n                scale=self.scale,\n            )\n\n            # Pad the image (if needed) according max stride\n            sample[\"image\"] = apply_pad_to_stride(\n                sample[\"image\"], max_stride=self.max_stride\n            )\n\n            if self.np_chunks:\n                sample[\"image\"] = self.transform_to_pil(sample[\"image\"].squeeze(dim=0))\n                for k, v in sample.items():\n                    if k != \"image\" and isinstance(v, torch.Tensor):\n                        sample[k] = v.numpy()\n                f_name = f\"{self.np_chunks_path}/sample_{idx}.npz\"\n                np.savez_compressed(f_name, **sample)\n                self.cache[idx] = f_name\n\n            else:\n                self.cache[idx] = sample.copy()\n\n        for video in self.labels.videos:\n            video.close()\n\n    def _get_video_idx", "C04-reg"),
     Variant("centroid-chunk-scales-instances-only", GCF, "    sample[\"image\"], sample[\"centroids\"] = apply_resizer(\n        sample[\"image\"], sample[\"centroids\"], scale=scale\n    )", "    sample[\"image\"], sample[\"instances\"] = apply_resizer(\n        sample[\"image\"], sample[\"instances\"], scale=scale\n    )", "C04-reg"),
